@@ -202,6 +202,117 @@ func c20ValidateUnit(unit string, env *fw.Env) *fw.Result {
 	return res
 }
 
+// thorough tier: every triple of constrained fields at all their values (sharded by the first field)
+func c20TriplesUnit(unit string, env *fw.Env) *fw.Result {
+	res := fw.NewResult()
+	root := fw.Scratch("c20t")
+	defer os.RemoveAll(root)
+	var shard, nsh int
+	fmt.Sscanf(strings.TrimPrefix(unit, "validate-triples/"), "%d/%d", &shard, &nsh)
+	fields := c20Fields()
+	base := c20Bases(filepath.Join(root, "cfg"))[0]
+	n := 0
+	for i := range fields {
+		for j := i + 1; j < len(fields); j++ {
+			for k := j + 1; k < len(fields); k++ {
+				n++
+				if n%nsh != shard {
+					continue
+				}
+				if env.Expired() {
+					res.Exhaustive = false
+					res.Caps = append(res.Caps, unit+": deadline")
+					return res
+				}
+				fw.Progress(fmt.Sprintf("c20 triple %s %s %s", fields[i].Name, fields[j].Name, fields[k].Name))
+				for _, vi := range fields[i].Values {
+					for _, vj := range fields[j].Values {
+						for _, vk := range fields[k].Values {
+							c := cloneCfg(base)
+							fields[i].Set(c, vi)
+							fields[j].Set(c, vj)
+							fields[k].Set(c, vk)
+							desc := fmt.Sprintf("%s=%v %s=%v %s=%v", fields[i].Name, vi, fields[j].Name, vj, fields[k].Name, vk)
+							res.Evaluations++
+							if !c20Expected(c, fields) {
+								res.Nontrivial++
+							}
+							if p := c20EvalCfg(root, c, fields, desc); p != "" {
+								res.Violate(fw.FP("C20", firstLine(p), desc), p, unit, map[string]any{"kind": "config", "desc": desc})
+							}
+						}
+					}
+				}
+			}
+		}
+	}
+	return res
+}
+
+// thorough tier: the fields without a documented constraint take extreme values one at a time and in pairs; the
+// configuration stays valid and must be stored and loaded back unchanged
+func c20ExtremesUnit(unit string, env *fw.Env) *fw.Result {
+	res := fw.NewResult()
+	root := fw.Scratch("c20x")
+	defer os.RemoveAll(root)
+	fields := c20Fields()
+	type setter struct {
+		name string
+		set  func(c *config.Config, i int)
+		n    int
+	}
+	i64s := []int64{-1 << 63, -1, 0, 1, 1<<31 - 1, 1 << 31, 1<<53 + 1, 1<<63 - 1}
+	ints := []int{-1 << 31, -1, 0, 1, 1<<31 - 1}
+	i64f := func(name string, get func(c *config.Config) *int64) setter {
+		return setter{name, func(c *config.Config, i int) { *get(c) = i64s[i] }, len(i64s)}
+	}
+	intf := func(name string, get func(c *config.Config) *int) setter {
+		return setter{name, func(c *config.Config, i int) { *get(c) = ints[i] }, len(ints)}
+	}
+	free := []setter{
+		i64f("WALSyncBytes", func(c *config.Config) *int64 { return &c.WALSyncBytes }),
+		i64f("WALMaxSize", func(c *config.Config) *int64 { return &c.WALMaxSize }),
+		i64f("MaxMemTableAge", func(c *config.Config) *int64 { return &c.MaxMemTableAge }),
+		intf("MemTablePoolCap", func(c *config.Config) *int { return &c.MemTablePoolCap }),
+		i64f("SSTableMaxSize", func(c *config.Config) *int64 { return &c.SSTableMaxSize }),
+		intf("SSTableRestartSize", func(c *config.Config) *int { return &c.SSTableRestartSize }),
+		intf("CompactionThreads", func(c *config.Config) *int { return &c.CompactionThreads }),
+		i64f("CompactionInterval", func(c *config.Config) *int64 { return &c.CompactionInterval }),
+		intf("MaxLevelWithTombstones", func(c *config.Config) *int { return &c.MaxLevelWithTombstones }),
+		{"WALSyncMode", func(c *config.Config, i int) { c.WALSyncMode = config.SyncMode([]int{-1, 0, 1, 2, 3, 255}[i]) }, 6},
+		{"WALDir", func(c *config.Config, i int) { c.WALDir = []string{"w", "a b/\u00e9\"q", strings.Repeat("d", 3000)}[i] }, 3},
+		{"SSTDir", func(c *config.Config, i int) { c.SSTDir = []string{"s", "\t\n<>&", strings.Repeat("s", 3000)}[i] }, 3},
+		// constrained fields at the far end of their valid range
+		i64f("MemTableSize+", func(c *config.Config) *int64 { return &c.MemTableSize }),
+		i64f("ReadOnlyTxTTL+", func(c *config.Config) *int64 { return &c.ReadOnlyTxTTL }),
+	}
+	base := c20Bases(filepath.Join(root, "cfg"))[0]
+	eval := func(c *config.Config, desc string) {
+		res.Evaluations++
+		res.Nontrivial++
+		if p := c20EvalCfg(root, c, fields, desc); p != "" {
+			res.Violate(fw.FP("C20", firstLine(p), desc), p, unit, map[string]any{"kind": "config", "desc": desc})
+		}
+	}
+	for a := range free {
+		for i := 0; i < free[a].n; i++ {
+			c := cloneCfg(base)
+			free[a].set(c, i)
+			eval(c, fmt.Sprintf("%s#%d", free[a].name, i))
+			for b := a + 1; b < len(free); b++ {
+				for j := 0; j < free[b].n; j++ {
+					c := cloneCfg(base)
+					free[a].set(c, i)
+					free[b].set(c, j)
+					fw.Progress(fmt.Sprintf("c20 extremes %s#%d %s#%d", free[a].name, i, free[b].name, j))
+					eval(c, fmt.Sprintf("%s#%d %s#%d", free[a].name, i, free[b].name, j))
+				}
+			}
+		}
+	}
+	return res
+}
+
 // opening with stored / damaged manifests over existing data
 func c20OpenUnit(unit string, env *fw.Env) *fw.Result {
 	res := fw.NewResult()
@@ -379,14 +490,27 @@ func init() {
 	fw.Register(&fw.Check{
 		ID:    "C20",
 		Level: "exploration",
-		Rule: "constraint table of 15 documented clauses written independently of Validate; for 3 valid base configurations: every single-field deviation over {bound-1, bound, bound+1, typical}, every pair of fields over all their values, and the full product warning x critical threshold in [-1,101]^2: Validate accepts <=> table; a rejected configuration makes SaveManifest fail without a single file-system call (recorded through the os shim); an accepted one is stored and loaded back equal in every field. Open: a database created with an all-non-default configuration runs with it (also after reopen; custom directories used); every truncation of the stored manifest, every single-byte damage x 5 value classes and every crash cut / torn write of a manifest update over existing data: opening fails with an error or runs with the stored (old or new) configuration - never with defaults. Non-trivial = configurations violating a clause / damaged manifests",
+		Rule: "constraint table of 15 documented clauses written independently of Validate; for 3 valid base configurations: every single-field deviation over {bound-1, bound, bound+1, typical}, every pair of fields over all their values, and the full product warning x critical threshold in [-1,101]^2: Validate accepts <=> table; a rejected configuration makes SaveManifest fail without a single file-system call (recorded through the os shim); an accepted one is stored and loaded back equal in every field. Thorough tier: every triple of the 15 constrained fields over all their values, and every single / pair assignment of extreme values (int64 and int32 limits, 2^53+1, unknown sync modes, long and oddly-charactered directory names) to the fields without a documented constraint: valid, stored, loaded back equal. Open: a database created with an all-non-default configuration runs with it (also after reopen; custom directories used); every truncation of the stored manifest, every single-byte damage x 5 value classes and every crash cut / torn write of a manifest update over existing data: opening fails with an error or runs with the stored (old or new) configuration - never with defaults. Non-trivial = configurations violating a clause / damaged manifests",
 		Assumptions: []string{"a missing manifest is 'not found' (a new database), not 'invalid'", "a damaged byte that yields another valid configuration cannot be detected without a checksum and is not flagged; falling back to defaults is"},
 		Units: func(tier string) []string {
-			return []string{"validate", "open/trunc", "open/byte/0/4", "open/byte/1/4", "open/byte/2/4", "open/byte/3/4", "open/crash"}
+			us := []string{"validate", "open/trunc", "open/byte/0/4", "open/byte/1/4", "open/byte/2/4", "open/byte/3/4", "open/crash"}
+			if tier == "thorough" {
+				for i := 0; i < 12; i++ {
+					us = append(us, fmt.Sprintf("validate-triples/%d/12", i))
+				}
+				us = append(us, "extremes")
+			}
+			return us
 		},
 		Run: func(unit string, env *fw.Env) *fw.Result {
 			if unit == "validate" {
 				return c20ValidateUnit(unit, env)
+			}
+			if strings.HasPrefix(unit, "validate-triples/") {
+				return c20TriplesUnit(unit, env)
+			}
+			if unit == "extremes" {
+				return c20ExtremesUnit(unit, env)
 			}
 			return c20OpenUnit(unit, env)
 		},
